@@ -4,7 +4,7 @@
 //! 808 is_superset, 809 is_disjoint, 810 `-` operator result, 811 operand changed, 820 eq vs model, 821 eq not symmetric, 822 eq not reflexive
 use crate::model::*;
 use crate::vf;
-use micromap::Set;
+use micromap::{Map, Set};
 
 
 
@@ -318,6 +318,32 @@ pub fn c14_map<const N: usize, const M: usize>() {
     same_u8_map(&a, &am);
     same_u8_map(&b, &bm);
 }
+/// values / elements whose `==` is only a PARTIAL equivalence (like f32 NaN): "equal exactly when they hold the same keys
+/// with equal values" then makes a container holding such a value unequal even to itself and to its clone -- the answer
+/// may not depend on whether the two operands are the same object
+#[derive(Clone, Copy)]
+pub struct NR(pub u8);
+impl PartialEq for NR { #[inline(always)] fn eq(&self, o: &NR) -> bool { self.0 == o.0 && self.0 < 0xF0 } }
+pub fn c14_partial<const N: usize>() {
+    let (a, am) = any_u8_map::<N>();
+    let mut m: Map<u8, NR, N> = empty_map();
+    let mut s: Set<NR, N> = empty_set();
+    let (mut vals_ok, mut keys_ok) = (true, true);
+    for (k, v) in a.iter() {
+        vf::check(m.insert(*k, NR(*v)).is_none(), 100);
+        vf::check(s.insert(NR(*k)), 100);
+        if *v >= 0xF0 { vals_ok = false; }
+        if *k >= 0xF0 { keys_ok = false; }
+    }
+    vf::check(m.len() == am.n && s.len() == am.n, 100);
+    let (mr, sr) = (&m, &s);
+    vf::check((m == m) == vals_ok && (mr == mr) == vals_ok && (m != m) == !vals_ok, 822);
+    vf::check((s == s) == keys_ok && (sr == sr) == keys_ok && (s != s) == !keys_ok, 822);
+    let (mc, sc) = (m.clone(), s.clone());
+    vf::check((m == mc) == vals_ok && (mc == m) == vals_ok, 820);
+    vf::check((s == sc) == keys_ok && (sc == s) == keys_ok, 820);
+    if vals_ok && keys_ok { vf::reach(1); } else { vf::reach(2); }
+}
 pub fn c14_set<const N: usize, const M: usize>() {
     let (a, am) = any_u8_set::<N>();
     let (b, bm) = any_u8_set::<M>();
@@ -345,8 +371,10 @@ harnesses! {
     c08_difference_ref: [1, 1] [2, 2] [3, 2] [2, 3];
     c08_predicates: [0, 0] [1, 1] [2, 2] [3, 3] [1, 3] [3, 1] [0, 2] [2, 0];
     c14_map: [0, 0] [1, 1] [2, 2] [3, 3] [1, 3] [3, 1] [0, 2] [2, 0] [2, 3];
+    c14_partial: [1] [2] [3];
     c14_set: [0, 0] [1, 1] [2, 2] [3, 3] [1, 3] [3, 1] [0, 2] [2, 0] [2, 3];
     @deep
+    c14_partial: [4];
     c08_union: [4, 4] [4, 2] [2, 4];
     c08_intersection: [4, 4] [4, 2] [2, 4];
     c08_difference: [4, 4] [4, 2] [2, 4];
